@@ -13,6 +13,7 @@ mod gen_schema;
 mod sx_schema;
 mod c11;
 mod c04;
+mod c08;
 
 use out::Out;
 
@@ -58,6 +59,7 @@ fn main() {
                 "c07" => c07::run(&args, &mut out),
                 "c11" => c11::run(&args, &mut out),
                 "c04" => c04::run(&args, &mut out),
+                "c08" => c08::run(&args, &mut out),
                 s => { eprintln!("unknown stream {s}"); std::process::exit(2); }
             }
             out.write(&args.out);
